@@ -8,7 +8,9 @@ import (
 	"encoding/json"
 	"errors"
 	"fmt"
+	"runtime"
 	"sort"
+	"strings"
 	"sync"
 	"sync/atomic"
 	"time"
@@ -281,10 +283,14 @@ func (d *simDB) restart() {
 // ---- key client (key servers and notaries) ---------------------------------
 
 type respRec struct {
-	kind   string // fault kind, "" = honest
-	good   bool   // passes the independent admission predicate
-	server spec.ServerName
-	keys   gmsl.ServerKeys
+	// goodForDirect: inadmissible to a perspective fetcher (no pinned notary key
+	// signs it) but, to a direct fetcher asking the server about itself, simply
+	// what that server says its keys are
+	goodForDirect bool
+	kind          string // fault kind, "" = honest
+	good          bool   // passes the independent admission predicate
+	server        spec.ServerName
+	keys          gmsl.ServerKeys
 }
 
 type simClient struct {
@@ -538,6 +544,11 @@ func (c *simClient) LookupServerKeys(ctx context.Context, via spec.ServerName, r
 	task := sim.TaskName(ctx)
 	rec := recOf(ctx)
 	label := fmt.Sprintf("lookup#%d:%s", recN(rec), via)
+	if calledFromPerspective() {
+		// a perspective fetcher asking a notary about the notary itself makes
+		// the same query as a direct fetcher's fallback for that server
+		label = "p" + label
+	}
 	if rec != nil {
 		rec.out.Add(1)
 		defer rec.out.Add(-1)
@@ -596,6 +607,23 @@ func (c *simClient) LookupServerKeys(ctx context.Context, via spec.ServerName, r
 			}
 			// notary faults
 			switch {
+			case spec.ServerName(nm) == n.Name && t.Chance(3*c.faultRate):
+				// asked about itself, the notary answers with a response that is
+				// signed - as the server it names - by a key the client never
+				// pinned for this notary, and by nothing else: self-signed, yes,
+				// but no configured notary key vouches for it. (To a direct
+				// fetcher's fallback query it is simply what the server says.)
+				c.w.r.Fault("notary_own_response_under_unpinned_key")
+				forged := *c.w.rogue.Current()
+				forged.ID = "ed25519:unpinned"
+				forged.From = time.Unix(0, 0)
+				fake := &world.Server{Name: n.Name, Keys: []*world.Key{&forged}, ValidFor: 1000 * time.Hour}
+				rr = &respRec{kind: "notary_self_unpinned", server: n.Name, keys: fake.KeyResponse(time.Now()), goodForDirect: true}
+			case spec.ServerName(nm) == n.Name:
+				// the notary's own genuine response: its self-signature is the
+				// notary's signature, so the faults below (which take away or
+				// spoil the counter-signature only) would not make it inadmissible
+				rr.keys = counterSign(n, n.Keys[0], rr.keys)
 			case t.Chance(c.faultRate) && t.Intn(2) == 0:
 				c.w.r.Fault("notary_sig_missing")
 				rr.kind, rr.good = joinKind(rr.kind, "no_notary_sig"), false
@@ -722,4 +750,20 @@ func entriesOf(sk gmsl.ServerKeys) map[pair]entry {
 		out[pair{ServerName: spec.ServerName(f.ServerName), KeyID: gmsl.KeyID(id)}] = entry{VerifyKey: gmsl.VerifyKey{Key: dec(k.Key)}, ExpiredTS: spec.Timestamp(k.ExpiredTS)}
 	}
 	return out
+}
+
+// calledFromPerspective: is a PerspectiveKeyFetcher method on this goroutine's stack?
+func calledFromPerspective() bool {
+	pcs := make([]uintptr, 24)
+	n := runtime.Callers(2, pcs)
+	frames := runtime.CallersFrames(pcs[:n])
+	for {
+		f, more := frames.Next()
+		if strings.Contains(f.Function, "PerspectiveKeyFetcher") {
+			return true
+		}
+		if !more {
+			return false
+		}
+	}
 }
